@@ -14,6 +14,11 @@ inductive Reg | AX | BX | CX | DX | SI | DI | R8 | R10 | R11 | R12 | R13
   deriving DecidableEq, Repr
 inductive XReg | X0 | X1 | X2
   deriving DecidableEq, Repr
+/-- 256-bit registers, as 32 byte lanes.  **Modelling assumption**: `Y_k` and `X_k` are kept in separate register
+    files (on the hardware `X_k` is the low half of `Y_k`).  The kernels never read an `X_k` after writing `Y_k` on the
+    same path, and never read `Y_k` lanes they did not write with a 256-bit instruction. -/
+inductive YReg | Y1 | Y2 | Y3 | Y4 | Y5 | Y6
+  deriving DecidableEq, Repr
 
 inductive Instr
   | TESTQ (a b : Reg)
@@ -34,6 +39,16 @@ inductive Instr
   | PSHUFL (imm : Nat) (src dst : XReg)
   | CMPQi (a : Reg) (imm : Nat)           -- CMPQ a, $imm
   | JLT (l : String) | JA (l : String) | JNE (l : String)
+  | VPBROADCASTB (src : XReg) (dst : YReg)                 -- lane 0 of src into all 32 lanes
+  | VMOVDQU (disp : Int) (base : Reg) (dst : YReg)         -- 32-byte load
+  | VPOR (a b dst : YReg) | VPAND (a b dst : YReg) | VPCMPEQB (a b dst : YReg)
+  | VPTEST (a b : YReg)                                    -- ZF := (a AND b) = 0
+  | VPMOVMSKB (src : YReg) (dst : Reg)
+  | VZEROUPPER
+  | POPCNTQ (src dst : Reg)
+  | SALQi (imm : Nat) (dst : Reg)
+  | ORQ (src dst : Reg)
+  | JLE (l : String)
   | CMPBavx2                              -- CMPB ·X86.HasAVX2, $1
   | STUCK                                 -- an instruction outside the modelled subset
   | MOVOU (disp : Int) (base : Reg) (idx : Option Reg) (dst : XReg)
@@ -63,6 +78,7 @@ inductive Instr
 structure St where
   r : Reg → Nat
   x : XReg → Nat → UInt8
+  y : YReg → Nat → UInt8
   zf : Bool
   cf : Bool
   lt : Bool            -- signed "less" of the last compare (SF ≠ OF); only compares update it
@@ -76,6 +92,12 @@ def W32 : Nat := 2 ^ 32
 
 def setR (s : St) (d : Reg) (v : Nat) : St := { s with r := fun q => if q = d then v else s.r q }
 def setX (s : St) (d : XReg) (v : Nat → UInt8) : St := { s with x := fun q => if q = d then v else s.x q }
+def setY (s : St) (d : YReg) (v : Nat → UInt8) : St := { s with y := fun q => if q = d then v else s.y q }
+
+/-- all of the low `n` lanes are zero -/
+def lanesZero (f : Nat → UInt8) : Nat → Bool
+  | 0 => true
+  | n+1 => lanesZero f n && f n == 0
 
 /-- PMOVMSKB on the low `n` lanes: bit `j` is the top bit of lane `j` -/
 def mask (f : Nat → UInt8) : Nat → Nat
@@ -123,6 +145,20 @@ def step (s : St) : Instr → Option (St × Option String)
   | .JLT l => some (s, if s.lt then some l else none)
   | .JA l => some (s, if s.cf || s.zf then none else some l)
   | .JNE l => some (s, if s.zf then none else some l)
+  | .VPBROADCASTB src dst => some (setY s dst (fun _ => s.x src 0), none)
+  | .VMOVDQU d b dst =>
+    let a := addr s d b none
+    some ({ setY s dst (fun j => s.mem (a + j)) with loads := s.loads ++ [(a, 32)] }, none)
+  | .VPOR a b dst => some (setY s dst (fun j => s.y b j ||| s.y a j), none)
+  | .VPAND a b dst => some (setY s dst (fun j => s.y b j &&& s.y a j), none)
+  | .VPCMPEQB a b dst => some (setY s dst (fun j => if s.y b j = s.y a j then 0xFF else 0), none)
+  | .VPTEST a b => some ({ s with zf := lanesZero (fun j => s.y b j &&& s.y a j) 32, cf := false }, none)
+  | .VPMOVMSKB src dst => some (setR s dst (mask (s.y src) 32), none)
+  | .VZEROUPPER => some (s, none)
+  | .POPCNTQ src dst => let v := cntBits (s.r src) 0 64; some ({ setR s dst v with zf := v == 0, cf := false }, none)
+  | .SALQi imm dst => some (setR s dst ((s.r dst <<< (imm % 64)) % W64), none)
+  | .ORQ src dst => let v := s.r dst ||| s.r src; some ({ setR s dst v with zf := v == 0, cf := false }, none)
+  | .JLE l => some (s, if s.lt || s.zf then some l else none)
   | .CMPBavx2 => some ({ s with zf := s.avx2, cf := false }, none)
   | .STUCK => none
   | .ANDQi imm dst => let v := s.r dst &&& imm; some ({ setR s dst v with zf := v == 0, cf := false }, none)
